@@ -1,0 +1,20 @@
+//go:build verif
+
+package verifexport
+
+import (
+	iec "github.com/nspcc-dev/neofs-node/internal/ec"
+	ierrors "github.com/nspcc-dev/neofs-node/internal/errors"
+)
+
+// EC attribute names and part descriptor of the internal EC package.
+const (
+	ECAttributeRuleIdx = iec.AttributeRuleIdx
+	ECAttributePartIdx = iec.AttributePartIdx
+)
+
+// PartInfo is an alias of the internal EC part descriptor.
+type PartInfo = iec.PartInfo
+
+// ErrParentObject is the internal "referenced object is a parent" error.
+var ErrParentObject = ierrors.ErrParentObject
